@@ -353,6 +353,12 @@ def _kernel(ctx: Ctx, k: FuncInfo, fea: bool) -> dict[str, Any]:
             if isinstance(s, (ast.Pass,)) or (isinstance(
                     s, ast.Expr) and isinstance(s.value, ast.Constant)):
                 continue
+            if any(isinstance(q_, ast.Subscript) and isinstance(
+                    q_.value, ast.Name) and q_.value.id == "h"
+                    and isinstance(q_.ctx, ast.Load)
+                    for q_ in ast.walk(s)):
+                # a frequency read into a local: counts as "tested" here
+                st.h_tests.append(len(st.h_incs))
             try:
                 st.env = ev.stmt(st.env, s)
             except Unsupported as u:
@@ -583,16 +589,23 @@ def _solve(ctx: Ctx, sv: FuncInfo, k: FuncInfo, fea: bool,
             records["register"].append(
                 (ev.expr(env, n.args[0]), ev.expr(env, n.args[1]), n))
             return Poly.const(0)
-        if nm == "np.zeros" and n.args:
+        if nm == "np.zeros" and (n.args or any(
+                kw_.arg == "shape" for kw_ in n.keywords)):
             sites[0] += 1
-            size = ev.num(env, n.args[0])
+            size = ev.num(env, n.args[0] if n.args else next(
+                kw_.value for kw_ in n.keywords if kw_.arg == "shape"))
             v = Poly.var(f"H{sites[0]}")
             records["zeros"].append((v, size))
             return v
         if isinstance(n.func, ast.Name) and repo.resolve(
                 sv.module, n.func.id) is k:
             sites[0] += 1
-            args = [ev.expr(env, a) for a in n.args]
+            from sa.srcmodel import bound_args
+            ba = bound_args(n, list(k.params))
+            if set(ba) != set(k.params):
+                raise Unsupported("kernel call does not bind every "
+                                  "parameter", n)
+            args = [ev.expr(env, ba[p_]) for p_ in k.params]
             res = Poly.atom(("app", "kernel", (Poly.const(sites[0]),)))
             records["kernel"].append((args, res, n, env.copy(), gw._path))
             return res
@@ -631,7 +644,8 @@ def _solve(ctx: Ctx, sv: FuncInfo, k: FuncInfo, fea: bool,
            construct="register wiring")
     # ---- y fed to the kernel is the initial evaluate(x) or the previous
     # kernel result (loop-carried): both are assignments to the same name
-    yarg = call.args[k.params.index("y")]
+    from sa.srcmodel import bound_args as _ba
+    yarg = _ba(call, list(k.params))["y"]
     ok_y = False
     if isinstance(yarg, ast.Name):
         defs = []
@@ -687,6 +701,24 @@ def _solve(ctx: Ctx, sv: FuncInfo, k: FuncInfo, fea: bool,
         return
     r1, r2 = (Poly.atom(a) for a in draws)
     zero, nm2 = Poly.const(0), ncity - two
+
+    def strip(c: tuple) -> tuple:
+        """Conditions that do not concern the indices (`while True: if
+        stop(): break`) are dropped from the conjunction."""
+        if c[0] == "opaque" and len(c) == 4 and c[1] == "and":
+            parts = [x for x in (strip(c[2]), strip(c[3]))
+                     if x != ("true",)]
+            return ("and", *parts) if len(parts) > 1 else (
+                parts[0] if parts else ("true",))
+        if c[0] == "opaque" or (c[0] == "not" and c[1][0] == "opaque"):
+            return ("true",)
+        if c[0] == "and":
+            parts = [strip(x) for x in c[1:]]
+            parts = [x for x in parts if x != ("true",)]
+            return ("and", *parts) if len(parts) > 1 else (
+                parts[0] if parts else ("true",))
+        return c
+    kpath = strip(kpath)
     terms = [r1, r2, zero, nm2]
     bad = None
     n_models = 0
